@@ -188,6 +188,72 @@ prop('C05', 'Each option performs only its documented rewrite, only where it is 
                  '(per option, never in dataclass/NamedTuple/TypedDict), posargs; and minify() runs each stage exactly under its own option. Level "other": one open known finding (KF-18: a field declared inside a block of a dataclass body) is outside what the per-node contract can see.')
 
 
+def sweep(only, tier, label):
+    return Task('standin.rename_sweep.' + label, 'contracts.printer:task_standin', standin='rename sweep', script='rename_sweep.py',
+                args=['--only', only, '--random', '40' if tier == 'quick' else '400'],
+                bound='%s runnable programs over scope shapes (hand-written pool, every literal kind x use count, seeded random functions) x 9 option sets, '
+                      'preserve lists and taint triggers; oracles: %s' % ('~230' if tier == 'quick' else '~600', only))
+
+
+def renamer_tasks(tier):
+    ts = [Task('scopes.add_parent', 'contracts.scopes:task_add_parent'), Task('scopes.arguments', 'contracts.scopes:task_arguments'),
+          Task('scopes.namedexpr', 'contracts.scopes:task_namedexpr')]
+    for t in ('arg_rename_in_place', 'namebinding_init', 'binder_get_binding', 'resolve_get_binding', 'namebinding_rename', 'name_assigner', 'allow_rename',
+              'taint_alias'):
+        ts.append(Task('renamer.' + t, 'contracts.renamer:task_' + t))
+    for t in ('hoist_visitors', 'hoisted_value', 'insert', 'placement', 'cost_model'):
+        ts.append(Task('hoist.' + t, 'contracts.hoist:task_' + t))
+    ts.append(Task('pipeline.minify', 'contracts.pipeline:task_minify'))
+    ts.append(Task('folding.visit_BinOp', 'contracts.folding:task_visit_binop'))
+    return ts
+
+
+REN_TRUST = ['scoping table spec_scope (language reference 4.2, 6.2.4, PEP 572), hand-written', 'recursive calls and callee functions used by contract '
+             '(each verified as its own function under contract)', 'CPython symtable conformance of the scoping table is only cross-checked boundedly (rename sweep)']
+
+prop('C03', 'Renaming preserves which binding every name refers to', 'other', lambda tier: renamer_tasks(tier) + [sweep('compile,behaviour', tier, 'C03')],
+     ['C03/', 'C04/NameAssigner', 'C04/util.arg_rename_in_place', 'C09/resolve_names'], replay='props.replay_rename:replay_rename', trusted=REN_TRUST,
+     explanation='(a) mapper.add_parent and its helpers: for a symbolic node of every class the namespace passed for every child equals the scoping table '
+                 '(enclosing vs own namespace, first comprehension iterable, walrus targets, annotations of every parameter kind). (b) resolve_names.'
+                 'get_binding continues only through get_global_namespace / get_nonlocal_namespace (class bodies skipped); unresolved names are pinned. '
+                 '(c) NameAssigner.__call__ for an arbitrary binding: reserved names are blocked in the whole reservation scope first, a rename uses exactly '
+                 'the name available_name found free in that scope, the name in use afterwards is blocked; is_available implies freedom in every namespace of '
+                 'the scope; NameBinding.rename writes exactly the name slot of each reference class and only the own positions of global/nonlocal statements. '
+                 'Level "other": reservation_scope and the symtable conformance of the table are covered by the bounded sweep only.')
+prop('C04', 'Externally visible names are never changed', 'proof', lambda tier: renamer_tasks(tier) + [sweep('interface', tier, 'C04')],
+     ['C04/'], replay='props.replay_rename:replay_rename', trusted=REN_TRUST,
+     explanation='arg_rename_in_place is true exactly for self/cls-like first parameters of plain or @classmethod methods, star parameters and positional-only '
+                 'parameters; NameBinding.__init__ pins dunder names in every scope; NameBinder.get_binding pins class-body and builtin-shadowing names; '
+                 'unresolved names are pinned; permissions are never re-enabled (frame scan of every _allow_rename assignment); NameAssigner renames only '
+                 'bindings that allow it and prefixes new module names with "_" exactly when globals are not renamed; minify passes the options through.')
+prop('C06', 'Hoisted literals are bound once, before use, to an identical value', 'proof', lambda tier: renamer_tasks(tier) + [sweep('hoist,behaviour', tier, 'C06')],
+     ['C06/'], replay='props.replay_rename:replay_rename', trusted=REN_TRUST + ['dict lookup follows __eq__/__hash__'],
+     explanation='Visitor contracts: strings in statement position, f-string text, match patterns and __slots__ assignments are never referenced; literal '
+                 'kind decided by type (numbers are not name constants); HoistedValue.__eq__ implies identical type and value; aliases live in function or '
+                 'module namespaces only (nearest_function_namespace), on the common prefix of all uses (common_path step); HoistedBinding.rename assigns the '
+                 'first occurrence\'s own node once through util.insert, whose generator is proved to place the statement after exactly the docstring/'
+                 '__future__ prefix (loop invariant); folded constants keep parent and namespace.')
+prop('C09', 'Dynamic name access freezes every name in the module', 'proof', lambda tier: renamer_tasks(tier) + [sweep('freeze', tier, 'C09')],
+     ['C09/'], replay='props.replay_rename:replay_rename', trusted=REN_TRUST,
+     explanation='Detection: resolve_names.get_binding taints the module for exec/eval/locals/globals/vars resolved as builtins, visit_alias for star imports. '
+                 'Freeze: on every path of minify() with module.tainted, allow_rename_locals/allow_rename_globals receive False, rename_literals and '
+                 'remove_no_arg_exception_call are not called; pinned bindings are never renamed (C04).')
+prop('C10', 'Names the user asks to preserve are preserved', 'proof', lambda tier: renamer_tasks(tier) + [sweep('preserve,frame', tier, 'C10'), Task('cli.do_minify', 'contracts.cli:task_do_minify')],
+     ['C10/', 'C13/do_minify/preserve'], replay='props.replay_rename:replay_rename', trusted=REN_TRUST,
+     explanation='minify normalises str/None/list arguments and passes every name on (plus module.preserved); allow_rename_locals pins every listed binding of '
+                 'every non-module namespace and recurses into every child with the same arguments; allow_rename_globals adds the literal __all__ entries and '
+                 'pins listed module bindings; asking to preserve changes no other permission (frame); preserved globals are reserved before names are chosen; '
+                 'the CLI splits comma separated, repeated lists as documented.')
+prop('C17', 'Turning a size optimisation on never makes the output longer', 'other', lambda tier: [Task('hoist.cost_model', 'contracts.hoist:task_cost_model'),
+     Task('folding.visit_BinOp', 'contracts.folding:task_visit_binop'), sweep('size', tier, 'C17')],
+     ['C17/'], replay='props.replay_rename:replay_rename',
+     trusted=['byte-cost accounting table (contracts/hoist.py:true_delta) written from what rename() writes and the printers print', 'printed literal length = len(repr)'],
+     explanation='Second clause only ("names changed and literals hoisted only where the result is smaller"): for every reference kind and for mixed reference '
+                 'lists, should_rename(new) implies that the exact byte change (per-reference deltas + the re-binding statement) is <= 0 (linear integer arithmetic '
+                 'over symbolic name lengths); hoisting: should_rename implies alias definition + uses <= literal uses; folding keeps only strictly shorter text. '
+                 'The first clause (a corpus of real-world modules) is not expressible as a contract and is not claimed; one open known finding (KF-19).')
+
+
 def run_property(pid, tier):
     p = PROPS[pid]
     t0 = time.time()
